@@ -40,33 +40,33 @@ GS_SHAPES = [('gs with sets %s' % ([list(x) for x in s],), {'self': gs_t(s)})
              for n in range(0, 3) for s in itertools.product(((), (1,)), repeat=n)]
 
 contract('pyx12.error_handler.err_seg.err_count', type_cases=SEG_SHAPES, returns=Int,
-         ensures=['(result > 0) == (stored_seg(self) > 0)', 'result >= 0'], raises={}, serves=['C05'])
+         ensures=['(result > 0) == (stored_seg(self) > 0)', 'result >= 0'], raises={}, build='build_seg_count', serves=['C05'])
 
 contract('pyx12.error_handler.err_st.err_count', type_cases=ST_SHAPES, returns=Int,
-         ensures=['(result > 0) == (stored_st(self) > 0)', 'result >= 0'], raises={}, serves=['C05'],
+         ensures=['(result > 0) == (stored_st(self) > 0)', 'result >= 0'], raises={}, build='build_st_count', serves=['C05'],
          inline=['pyx12.error_handler.err_seg.err_count'])
 
 contract('pyx12.error_handler.err_st.close', type_cases=ST_SHAPES,
          params={'node': NoneT, 'seg_data': NoneT, 'src': Obj('ext.Src', cur_line=Int)},
          returns=NoneT,
          ensures=["(self.ack_code == 'A') == (stored_st(self) == 0)", "self.ack_code in ('A', 'R')"],
-         raises={}, serves=['C05'],
+         raises={}, build='build_st_close', serves=['C05'],
          inline=['pyx12.error_handler.err_seg.err_count', 'pyx12.error_handler.err_st.err_count'])
 
 contract('pyx12.error_handler.err_gs._get_ack_code', type_cases=GS_SHAPES, returns=Str,
          ensures=["(result == 'A') == (stored_gs(self) == 0)", "result in ('A', 'R')"],
-         raises={}, serves=['C05'],
+         raises={}, build='build_gs_ack', serves=['C05'],
          inline=['pyx12.error_handler.err_seg.err_count', 'pyx12.error_handler.err_st.err_count'])
 
 contract('pyx12.error_handler.err_gs.count_failed_st', type_cases=GS_SHAPES, returns=Int,
          ensures=['result == len(self.children) - accepted_sets(self)'],
-         raises={}, serves=['C05'])
+         raises={}, build='build_gs_failed', serves=['C05'])
 
 # the verdict side of C05: x12n_document answers False exactly when errh.get_error_count() > 0; at group level that count is
 # positive exactly when an error is stored at or below the group - the same condition under which _get_ack_code answers 'R'
 contract('pyx12.error_handler.err_gs.get_error_count', type_cases=GS_SHAPES, returns=Int,
          ensures=['(result > 0) == (stored_gs(self) > 0)', 'result >= 0'],
-         raises={}, serves=['C05'],
+         raises={}, build='build_gs_count', serves=['C05'],
          inline=['pyx12.error_handler.err_seg.err_count', 'pyx12.error_handler.err_st.err_count', 'pyx12.error_handler.err_st.get_error_count',
                  'pyx12.error_handler.err_ele.get_error_count', 'pyx12.error_handler.err_ele.err_count'])
 
@@ -84,11 +84,11 @@ ROOT_SHAPES = [('root with interchanges %s' % (list(s),), {'self': Obj('pyx12.er
 
 contract('pyx12.error_handler.err_isa.get_error_count', type_cases=ISA_SHAPES, returns=Int,
          ensures=['(result > 0) == (stored_isa(self) > 0)', 'result >= 0'],
-         raises={}, serves=['C05'])
+         raises={}, build='build_isa_count', serves=['C05'])
 
 contract('pyx12.error_handler.err_handler.get_error_count', type_cases=ROOT_SHAPES, returns=Int,
          ensures=['(result > 0) == (stored_root(self) > 0)', 'result >= 0'],
-         raises={}, serves=['C05'],
+         raises={}, build='build_root_count', serves=['C05'],
          note='the verdict of x12n_document is `valid and errh.get_error_count() == 0`: zero exactly when no error tuple is stored anywhere in the tree')
 
 
@@ -102,7 +102,76 @@ contract('pyx12.error_handler.err_gs.close', type_cases=GS_SHAPES,
          ensures=_GS_CLOSE_ENS + ['seg_data is not None or self.st_count_orig == 0',
                                   "seg_data is None or self.st_count_orig == (0 if int_or_none(seg_data.get_value('GE01')) is None "
                                   "else int_or_none(seg_data.get_value('GE01')))"],
-         raises={}, serves=['C05'],
+         raises={}, build='build_gs_close', ghost={'search': {'__probes__/ge01': ['2', '-3', 'x', '', None], '__probes__/seg_none': [False, True], 'src/.st_count': [0, 3]}}, serves=['C05'],
          note='closing a group fixes AK901 (A exactly when nothing is stored below), AK902 (GE01 when it is an integer literal, else 0) '
               'and AK903 (the reader\'s count of sets received); no exception for any GE.  The precondition is the guard of the only call '
               'site (x12n_document.py: `elif seg.get_seg_id() == \'GE\'`), which is not itself under contract: unchecked assumption')
+
+
+# ---- native replay: a real error tree in the shape and with the contents of the counter-model ----
+from contracts.x12file import _opt, _lazy
+
+_CHILD = {'root': 'isa', 'isa': 'gs', 'gs': 'st', 'st': 'seg', 'seg': None, 'ele': None}
+
+
+class _Src(object):
+    def __init__(self, cur_line, st_count):
+        self.cur_line, self.st_count = cur_line, st_count
+
+    def get_cur_line(self):
+        return self.cur_line
+
+
+def native_tree(state, level, prefix=''):
+    import pyx12.error_handler as E
+    cls = {'root': E.err_handler, 'isa': E.err_isa, 'gs': E.err_gs, 'st': E.err_st, 'seg': E.err_seg, 'ele': E.err_ele}[level]
+    o = cls.__new__(cls)
+    names = set()
+    for k in state:
+        if k.startswith(prefix + '.'):
+            rest = k[len(prefix) + 1:]
+            if '.' not in rest and '[' not in rest:
+                names.add(rest.split('?')[0])
+    for n in names:
+        if n != 'errors':
+            setattr(o, n, _lazy(state, prefix + '.' + n))
+    if level != 'root':
+        o.errors = [tuple(_opt(x) for x in e) for e in (state.get(prefix + '.errors') or [])]
+    if level in ('isa', 'gs', 'st', 'seg'):
+        o.elements = [native_tree(state, 'ele', '%s.elements[%d]' % (prefix, k)) for k in range(int(state.get(prefix + '.elements.__len__', 0) or 0))]
+    if _CHILD[level]:
+        o.children = [native_tree(state, _CHILD[level], '%s.children[%d]' % (prefix, k)) for k in range(int(state.get(prefix + '.children.__len__', 0) or 0))]
+    return o
+
+
+def _tree_builder(level, meth):
+    def build(args):
+        o = native_tree(args.get('self', {}), level)
+        return (lambda: getattr(o, meth)()), (), {'self': o}
+    return build
+
+
+build_gs_ack = _tree_builder('gs', '_get_ack_code')
+build_gs_failed = _tree_builder('gs', 'count_failed_st')
+build_gs_count = _tree_builder('gs', 'get_error_count')
+build_isa_count = _tree_builder('isa', 'get_error_count')
+build_root_count = _tree_builder('root', 'get_error_count')
+build_st_count = _tree_builder('st', 'err_count')
+build_seg_count = _tree_builder('seg', 'err_count')
+
+
+def build_st_close(args):
+    o = native_tree(args.get('self', {}), 'st')
+    src = _Src((args.get('src') or {}).get('.cur_line', 0), 0)
+    return (lambda: o.close(None, None, src)), (), {'self': o, 'node': None, 'seg_data': None, 'src': src}
+
+
+def build_gs_close(args):
+    import pyx12.segment
+    o = native_tree(args.get('self', {}), 'gs')
+    pr = args.get('__probes__', {})
+    ge01 = pr.get('ge01', '1')
+    seg = None if pr.get('seg_none') else pyx12.segment.Segment('GE' + ('' if ge01 is None else '*%s*1' % ge01), '~', '*', ':')
+    s = args.get('src') or {}
+    src = _Src(s.get('.cur_line', 0), s.get('.st_count', 0))
+    return (lambda: o.close(None, seg, src)), (), {'self': o, 'node': None, 'seg_data': seg, 'src': src}
